@@ -14,6 +14,9 @@ EXPLICIT = {
     "two-procedures-with-code-between": [".cfi_startproc", "nop", ".cfi_endproc", "nop", ".cfi_startproc", "nop", ".cfi_def_cfa_offset 32", "nop", ".cfi_endproc"],
     "three-procedures-back-to-back": [".cfi_startproc", "nop", ".cfi_endproc", ".cfi_startproc", "nop", ".cfi_def_cfa_offset 16", ".cfi_endproc", ".cfi_startproc", "nop", ".cfi_endproc"],
     "procedure-after-plain-code": ["nop", "nop", ".cfi_startproc", "nop", ".cfi_def_cfa_offset 16", "nop", ".cfi_endproc"],
+    # several labels at ONE position, each followed by a directive: the directives take effect in the order written
+    "stacked-labels-each-with-a-directive": [".cfi_startproc", "nop", ".La:", ".cfi_remember_state", ".Lb:", ".cfi_def_cfa_offset 24", ".Lc:", ".cfi_restore_state", "nop", ".cfi_endproc"],
+    "stacked-labels-two-offsets": [".cfi_startproc", "nop", ".La:", ".cfi_def_cfa_offset 16", ".Lb:", ".cfi_def_cfa_offset 24", "nop", ".Lc:", ".cfi_def_cfa_offset 32", ".Ld:", ".cfi_def_cfa_offset 40", ".Le:", "nop", ".cfi_endproc"],
 }
 
 
@@ -24,9 +27,15 @@ for _k in list(EXPLICIT):
 
 def _expected(lines):
     """per nop index: None outside a procedure, else the CFA offset in effect BEFORE that instruction (8 at a startproc on x86-64)"""
-    out, inside, cfa = [], False, None
+    out, inside, cfa, saved = [], False, None, []
     for l in lines:
-        if l == ".cfi_startproc":
+        if l.endswith(":"):
+            continue
+        if l == ".cfi_remember_state":
+            saved.append(cfa)
+        elif l == ".cfi_restore_state":
+            cfa = saved.pop()
+        elif l == ".cfi_startproc":
             inside, cfa = True, 8
         elif l == ".cfi_endproc":
             inside, cfa = False, None
